@@ -41,6 +41,32 @@ var c13HarnessParams = map[string]map[string]any{
 	"commentedOutCode": {"minLength": 9},
 }
 
+// c13PadKinds is the vocabulary of padding declarations (format verbs take a unique index).
+var c13PadKinds = []string{"\n", "\n\n\n", "var gcsimPad%d int\n", "func gcsimPad%d() {}\n", "type gcsimPadT%d struct{}\n", "// padding comment %d\n\n", "\n\nconst gcsimPadC%d = %d\n\n",
+	"func gcsimPadExtern%d(x int) int\n",                               // a function without a body (implemented elsewhere): legal
+	"func (gcsimPadRecv%d) pad() {}\n\ntype gcsimPadRecv%d struct{}\n", // a method before its receiver type
+	"func init() {}\n",
+	// declarations whose last type expression is "flat" (slice, array, pointer, channel,
+	// map over plain names) or a func / interface type: one-shot walker flags set while
+	// visiting a type expression must not survive the declaration
+	"type gcsimPadSl%d []int\n", "var gcsimPadMp%d map[string]int\n", "func gcsimPadPt%d(p *int) []string { return nil }\n",
+	"type gcsimPadCh%d chan struct{}\n", "var gcsimPadAr%d [4]byte\n", "type gcsimPadFn%d func(int) error\n", "type gcsimPadIf%d interface{ M() }\n"}
+
+// padOfKind renders padding kind k with index i.
+func padOfKind(k, i int) string {
+	t := c13PadKinds[k%len(c13PadKinds)]
+	switch strings.Count(t, "%d") {
+	case 2:
+		return fmt.Sprintf(t, i, i)
+	case 1:
+		return fmt.Sprintf(t, i)
+	}
+	if strings.HasPrefix(t, "func init") && i > 0 {
+		return "\n" // one init function per file is enough
+	}
+	return t
+}
+
 type padSpec struct {
 	Before int    `json:"before"` // chunk index (in output order) the padding precedes
 	Text   string `json:"text"`
@@ -62,6 +88,10 @@ type c13Extra struct {
 	// CloneAll (source mode): 1 = a renamed copy of EVERY plain function is put in
 	// front of the first declaration, 2 = after the last one.
 	CloneAll int `json:"clone_all,omitempty"`
+	// PadEvery > 0 (source mode): a padding declaration in front of EVERY chunk, chunk j
+	// getting kind (j + PadEvery) of the vocabulary - every declaration gets every kind of
+	// neighbour over the variants.
+	PadEvery int `json:"pad_every,omitempty"`
 }
 
 func (w *Worker) genC13(rc *simapi.RunConfig) {
@@ -78,10 +108,7 @@ func (w *Worker) genC13(rc *simapi.RunConfig) {
 		ex.Mode = "source"
 		rc.Kind = "source-transform"
 		np := r.Intn(4)
-		pads := []string{"\n", "\n\n\n", "var gcsimPad%d int\n", "func gcsimPad%d() {}\n", "type gcsimPadT%d struct{}\n", "// padding comment %d\n\n", "\n\nconst gcsimPadC%d = %d\n\n",
-			"func gcsimPadExtern%d(x int) int\n",                               // a function without a body (implemented elsewhere): legal
-			"func (gcsimPadRecv%d) pad() {}\n\ntype gcsimPadRecv%d struct{}\n", // a method before its receiver type
-			"func init() {}\n"}
+		pads := c13PadKinds
 		for i := 0; i < np; i++ {
 			t := pads[r.Intn(len(pads))]
 			if strings.Contains(t, "gcsimPadRecv") {
@@ -107,6 +134,9 @@ func (w *Worker) genC13(rc *simapi.RunConfig) {
 	ex.Variant = variant
 	if ex.Mode == "source" {
 		ex.CloneAll = variant % 3 // the second and third source variant of every file are systematic
+		if ex.CloneAll == 2 {
+			ex.PadEvery = 1 + variant/3
+		}
 		if ex.CloneAll == 1 {
 			// ... and the second one ends the file with whichever function the rotation
 			// put last: nothing appended, no padding (end-of-file is an edge of its own)
@@ -579,6 +609,10 @@ func (w *Worker) runC13Source(rc *simapi.RunConfig) *simapi.RunResult {
 		cloneAll()
 	}
 	for pos, ci := range order {
+		if ex.PadEvery > 0 {
+			emit(chunk{text: padOfKind(pos+ex.PadEvery, 1000+pos)}, false)
+			padded++
+		}
 		for k, p := range ex.Pads {
 			if p.Before%(len(order)+1) == pos {
 				if t := padText(k, p); t != "" {
@@ -758,7 +792,7 @@ func (w *Worker) runC13Source(rc *simapi.RunConfig) *simapi.RunResult {
 	res.Stats["functions_appended"] = int64(ex.Append)
 	res.Stats["diagnostics"] = int64(ndiag)
 	res.Stats["checkers"] = int64(len(names))
-	res.DecisionID = hashStrings(pkg, fmt.Sprint(ex.File, perm, ex.Pads, ex.Append, ex.CloneAll), strings.Join(names, ","))
+	res.DecisionID = hashStrings(pkg, fmt.Sprint(ex.File, perm, ex.Pads, ex.Append, ex.CloneAll, ex.PadEvery), strings.Join(names, ","))
 	res.Digest = hashStrings(res.DecisionID, fmt.Sprint(ndiag, len(res.Violations)))
 	return res
 }
@@ -769,6 +803,9 @@ func describeTransform(perm []int, ex c13Extra) string {
 		cl = ", a renamed copy of every plain function inserted before the first declaration"
 	} else if ex.CloneAll == 2 {
 		cl = ", a renamed copy of every plain function appended"
+	}
+	if ex.PadEvery > 0 {
+		cl += fmt.Sprintf(", a padding declaration in front of every declaration (kinds rotating from %d)", ex.PadEvery)
 	}
 	return fmt.Sprintf("reordering plain functions %v, %d paddings, %d appended functions%s", perm, len(ex.Pads), ex.Append, cl)
 }
